@@ -39,9 +39,9 @@ class BaseCase:
     level = 'exploration'
     ops_key: str | None = 'ops'
     n_cases = {'quick': 600, 'thorough': 8000}
-    wall_cap = {'quick': 300.0, 'thorough': 3600.0}
+    wall_cap = {'quick': 1500.0, 'thorough': 14400.0}
     chunk = {'quick': 8, 'thorough': 25}
-    chunk_timeout = 900.0
+    chunk_timeout = 1800.0
     minimise_budget = {'quick': 60.0, 'thorough': 180.0}
     expected_probes: list[str] = []
     components = COMPONENTS_TRAIN
